@@ -127,11 +127,76 @@ theorem run_returned_optimal (inp : Input α) (orc : Oracles α) (hK : 0 < inp.K
     rw [hlab]
     exact hopt q ⟨by rw [costPoints_length]; exact hq1, hq2⟩
 
-/-- a run fails only with the donor-shortage error of a repopulation (the other modelled phases are total). -/
-theorem run_error_is_no_donor (inp : Input α) (orc : Oracles α) (limit : Nat) (init : List Nat) (e : String)
-    (h : run inp orc limit init = .error e) : e = "no-donor" := by
+/-- a run fails only with the donor-shortage error of a repopulation or the empty-cluster assertion of
+a statistics phase (the other modelled phases are total). -/
+theorem run_error_kinds (inp : Input α) (orc : Oracles α) (limit : Nat) (init : List Nat) (e : String)
+    (h : run inp orc limit init = .error e) : e = "no-donor" ∨ e = "empty-cluster" := by
   obtain ⟨j, sPrev, _, hr⟩ :=
     MainLoop.run_error_from_a_round (phases inp orc) (fun s => s.labels) limit _ e h
-  exact round_error_no_donor inp orc j sPrev e hr
+  exact round_error_kinds inp orc j sPrev e hr
+
+/-- the first round (no repopulation) fails with the empty-cluster assertion exactly when the
+labelling it starts from — the initial (mixture-model) labelling — leaves a cluster without windows. -/
+theorem first_round_empty_cluster_iff (inp : Input α) (orc : Oracles α) (s : St α) :
+    MainLoop.round (phases inp orc) 0 s = .error "empty-cluster" ↔ hasEmpty inp.K s.labels = true := by
+  rcases round_cases inp orc 0 s with ⟨s1, _, h1, he, h2⟩ | ⟨hi, _, _⟩ | ⟨s1, h1, he, h2⟩
+  · have : s1 = s := by simpa [fittedInput] using h1.symm
+    subst this
+    rw [h2, he]
+    simp
+  · omega
+  · have : s1 = s := by simpa [fittedInput] using h1.symm
+    subst this
+    rw [h2, he]
+    simp
+
+/-- after a successful repopulation no cluster is empty (`m ≥ 1`, admissible draws, the needy clusters
+visited in some order): recipients gained `m`, donors keep at least `m`, the others keep what they had. -/
+theorem repop_leaves_no_empty_cluster {β : Type} [LT β] [DecidableLT β] (K m : Nat) (spread : Nat → β)
+    (pick : Nat → Nat → List Nat) (order labels labels' : List Nat) (hm : 1 ≤ m)
+    (hK : Repop.AllBelow K labels) (hp : Repop.ValidPick m pick) (ho : order.Perm (Repop.needy K labels))
+    (h : Repop.repopulate K m spread pick order labels = some labels') :
+    hasEmpty K labels' = false := by
+  unfold hasEmpty
+  rw [Bool.eq_false_iff]
+  intro hany
+  obtain ⟨k, hk, hz⟩ := List.any_eq_true.mp hany
+  have hkK : k < K := List.mem_range.mp hk
+  have hz' : Repop.size labels' k = 0 := by simpa using hz
+  by_cases hn : k ∈ Repop.needy K labels
+  · have := Repop.repop_recipients K m spread pick order labels labels' hm hK hp ho h k hn
+    omega
+  · have hsz : ¬ Repop.size labels k < Constants.emptyBelow := by
+      intro hlt
+      exact hn (by simp [Repop.needy, hkK, hlt])
+    have h2 : 2 ≤ Repop.size labels k := by
+      have : Constants.emptyBelow = 2 := rfl
+      omega
+    have hd := Repop.repop_donors K m spread pick order labels labels' hm hK hp ho h k (by omega)
+    omega
+
+/-- hence a round that repopulates (every round but the first) never fails with the empty-cluster
+assertion, provided the needy-set oracle of that round enumerates the needy clusters and the draws
+are admissible: the only failure left for it is the donor shortage. -/
+theorem later_round_never_empty_cluster (inp : Input α) (orc : Oracles α) (i : Nat) (hi : 0 < i) (s : St α)
+    (hm : 1 ≤ inp.m) (hK : Repop.AllBelow inp.K s.labels) (hp : Repop.ValidPick inp.m (orc.pick s.round))
+    (ho : (orc.order s.round).Perm (Repop.needy inp.K s.labels)) :
+    MainLoop.round (phases inp orc) i s ≠ .error "empty-cluster" := by
+  intro herr
+  rcases round_cases inp orc i s with ⟨s1, _, _, _, h2⟩ | ⟨_, _, h2⟩ | ⟨s1, h1, he, _⟩
+  · rw [h2] at herr; cases herr
+  · rw [h2] at herr
+    exact absurd (Except.error.inj herr) (by decide)
+  · simp only [fittedInput, hi, if_true] at h1
+    rw [repop_eq] at h1
+    cases hrep : Repop.repopulate inp.K inp.m (orc.spread s.round) (orc.pick s.round)
+        (orc.order s.round) s.labels with
+    | none => rw [hrep] at h1; cases h1
+    | some l =>
+      rw [hrep] at h1
+      cases h1
+      have := repop_leaves_no_empty_cluster inp.K inp.m _ _ _ _ l hm hK hp ho hrep
+      rw [this] at he
+      cases he
 
 end FastTicc.Run
